@@ -26,6 +26,35 @@ from vlib import common
 common.use_repo_sources()
 
 REC = {}
+FAULTS = []          # wrapper / stub problems of the harness itself (item 21): reported as ties, never as oracle failures
+
+_HARNESS_DIR = os.path.dirname(os.path.abspath(__file__))
+_HARNESS_NAMES = ("rec()", "wrapped()", "Stub", "RecGen", "RecRng", "RecordingArray", "RecArr", "GatherLog", "VerifDBALScorer", "TableTheta", "<locals>")
+
+
+def harness_fault(e):
+    """True if the exception is the harness's own doing: its innermost frame lies in harness code (a wrapper / stub / recorder failed), or
+    it is a TypeError about the call signature of one of the harness's stand-in objects.  Such an exception is a broken tie
+    (`res.disagree` + counter `wrapper.unexpected-call`), never a `res.fail` (HARDENING_CHECKLIST item 21)."""
+    tb = e.__traceback__
+    last = None
+    while tb is not None:
+        last = tb
+        tb = tb.tb_next
+    if last is not None and os.path.abspath(last.tb_frame.f_code.co_filename).startswith(_HARNESS_DIR):
+        return True
+    if isinstance(e, TypeError) and any(nm in str(e) for nm in _HARNESS_NAMES):
+        return True
+    return False
+
+
+def first_arg(args, kwargs, default=None):
+    """the single data argument of an interface method, however it was passed (positionally or under any keyword name)"""
+    if args:
+        return args[0]
+    for v in kwargs.values():
+        return v
+    return default
 
 
 class GatherLog(np.ndarray):
@@ -79,36 +108,55 @@ def plugin():
                                                    "types": [type(max_chunk).__name__, type(max_triples).__name__], "extra": sorted(kwargs)})
                 super().__init__(max_chunk=max_chunk, max_triples=max_triples, **kwargs)
 
-            def score(self, plates, distance_matrix, samples, rng, progress_bar):
+            def score(self, *args, **kwargs):
+                # signature-agnostic (item 21): bind against the ORIGINAL signature to find the arguments, forward everything unchanged
+                import inspect
+                try:
+                    ba = inspect.signature(gd.GaussianDBALScorer.score).bind(self, *args, **kwargs)
+                    plates, distance_matrix, samples, rng = (ba.arguments.get(k_) for k_ in ("plates", "distance_matrix", "samples", "rng"))
+                    call = self._record_call(plates, distance_matrix, samples, rng)
+                except Exception as e:  # noqa
+                    FAULTS.append("VerifDBALScorer.score could not record its arguments: %s: %s" % (type(e).__name__, str(e)[:200]))
+                    return super().score(*args, **kwargs)
+                kernel = gd.dbal_fast_gauss_scoring_vectorized
+
+                def wrapped(*a, **k):
+                    try:
+                        logs = ([], [], [])
+                        a2, k2 = list(a), dict(k)
+                        got = {}
+                        for pos, (name, lg) in enumerate(zip(("predictions", "variances", "distance_matrix"), logs)):
+                            if name in k2:
+                                got[name] = np.array(k2[name], dtype=float)
+                                k2[name] = GatherLog(np.asarray(k2[name]), lg)
+                            elif pos < len(a2):
+                                got[name] = np.array(a2[pos], dtype=float)
+                                a2[pos] = GatherLog(np.asarray(a2[pos]), lg)
+                        call["kernel"].append({"max_combos": k2.get("max_combos", "<default>"), "same_rng": k2.get("rng") is rng,
+                                               "distance_factor": k2.get("distance_factor", "<default>"), "arrays": got, "logs": logs})
+                    except Exception as e:  # noqa
+                        FAULTS.append("kernel wrapper could not record: %s: %s" % (type(e).__name__, str(e)[:200]))
+                        return kernel(*a, **k)
+                    return kernel(*a2, **k2)
+
+                gd.dbal_fast_gauss_scoring_vectorized = wrapped
+                try:
+                    out = super().score(*args, **kwargs)
+                finally:
+                    gd.dbal_fast_gauss_scoring_vectorized = kernel
+                try:
+                    call["out"] = {int(k): float(v) for k, v in out.items()}
+                except Exception:  # noqa
+                    pass
+                return out
+
+            def _record_call(self, plates, distance_matrix, samples, rng):
                 call = {"plate_ids": [int(k) for k in plates.keys()], "plates": dict(plates), "n_thetas": int(samples.n_thetas), "samples": samples,
                         "dense": np.array(distance_matrix.to_dense(), dtype=float), "rng_is_generator": isinstance(rng, np.random.Generator),
                         "rng_state": rng.bit_generator.state if isinstance(rng, np.random.Generator) else None,
                         "attrs": {"max_chunk": self.max_chunk, "max_triples": self.max_triples}, "kernel": []}
                 REC.setdefault("score", []).append(call)
-                kernel = gd.dbal_fast_gauss_scoring_vectorized
-
-                def wrapped(*a, **k):
-                    logs = ([], [], [])
-                    a = list(a)
-                    got = {}
-                    for pos, (name, lg) in enumerate(zip(("predictions", "variances", "distance_matrix"), logs)):
-                        if name in k:
-                            got[name] = np.array(k[name], dtype=float)
-                            k[name] = GatherLog(np.asarray(k[name]), lg)
-                        elif pos < len(a):
-                            got[name] = np.array(a[pos], dtype=float)
-                            a[pos] = GatherLog(np.asarray(a[pos]), lg)
-                    call["kernel"].append({"max_combos": k.get("max_combos", "<default>"), "same_rng": k.get("rng") is rng,
-                                           "distance_factor": k.get("distance_factor", "<default>"), "arrays": got, "logs": logs})
-                    return kernel(*a, **k)
-
-                gd.dbal_fast_gauss_scoring_vectorized = wrapped
-                try:
-                    out = super().score(plates=plates, distance_matrix=distance_matrix, samples=samples, rng=rng, progress_bar=progress_bar)
-                finally:
-                    gd.dbal_fast_gauss_scoring_vectorized = kernel
-                call["out"] = {int(k): float(v) for k, v in out.items()}
-                return out
+                return call
 
         host.VerifDBALScorer = VerifDBALScorer
         _PLUG["cls"] = VerifDBALScorer
@@ -216,6 +264,7 @@ def run_cli(subseed, n_thetas, budget, max_chunk, seed, verbose=False, split_fil
         if verbose:
             argv.append("--verbose")
         REC.clear()
+        del FAULTS[:]
         devnull = open(os.devnull, "w")
         try:
             with _argv(argv), contextlib.redirect_stderr(devnull):
@@ -228,9 +277,12 @@ def run_cli(subseed, n_thetas, budget, max_chunk, seed, verbose=False, split_fil
             return rec
         except Exception as e:  # noqa
             rec["error"] = "%s: %s" % (type(e).__name__, str(e)[:300])
+            rec["error_in_harness"] = harness_fault(e)
+            rec["faults"] = list(FAULTS)
             return rec
         finally:
             devnull.close()
+        rec["faults"] = list(FAULTS)
         rec["init"] = list(REC.get("init", []))
         rec["score_calls"] = list(REC.get("score", []))
         sh = ChunkedScoresHolder.load_h5(out)
